@@ -36,14 +36,16 @@ type topo struct {
 	Collide int
 	// Fallback: the failover middleware's fallback server, when the pipe has one
 	Fallback *l3.Server
+	// N3: the queried zone denies existence with NSEC3 (see n3.go)
+	N3 bool
 	// Pad: bad RRSIGs in front of every genuine one in the padded zone
 	Pad int
 }
 
-var families = []string{"cname", "dname", "nscycle", "deep", "lame", "hugens", "manysig", "updown", "refresh"}
+var families = []string{"cname", "dname", "nscycle", "deep", "lame", "hugens", "manysig", "updown", "refresh", "breaker", "nsec3"}
 
 // variants per family (see buildTopo)
-var familyVariants = map[string]int{"cname": 2, "dname": 2, "nscycle": 2, "deep": 2, "lame": 6, "hugens": 3, "manysig": 3, "updown": 2, "refresh": 2}
+var familyVariants = map[string]int{"cname": 2, "dname": 2, "nscycle": 2, "deep": 2, "lame": 6, "hugens": 3, "manysig": 3, "updown": 2, "refresh": 2, "breaker": 2, "nsec3": 2}
 
 func buildTopo(family string, n, variant int, signed bool) *topo {
 	w := l3.NewWorld(signed)
@@ -291,6 +293,35 @@ func buildTopo(family string, n, variant int, signed bool) *topo {
 		t.Answerable = true
 		t.Honest = false
 		t.Pad = n
+	case "nsec3":
+		nsec3Topo(w, t, n, variant)
+	case "breaker":
+		// Other clients' budgets and a healthy authority: every name under w.test. is an alias of
+		// t.v.test. (answered bare: the zones live on different servers), v.test. is served by one
+		// (variant 1: two) healthy server(s). A tree with a transport budget of one spends it on
+		// w.test.'s server and is refused the attempt at v.test.'s. Nothing is ever wrong with v.test.
+		w1 := w.AddZone("w.test.", zo())
+		w1.Add("plain.w.test. 300 IN A 192.0.2.88", "*.w.test. 300 IN CNAME t.v.test.")
+		vo := zo()
+		if variant == 1 {
+			vo.NSHosts = []string{"ns1.v.test.", "ns2.v.test."}
+		}
+		vz := w.AddZone("v.test.", vo)
+		vz.Add("t.v.test. 300 IN A 192.0.2.89", "*.v.test. 300 IN A 192.0.2.90")
+		if variant == 1 {
+			srv2 := w.NewServer("v.test.-2")
+			srv2.Attach(vz)
+			d := w.Delegation("v.test.")
+			for _, g := range d.Glue {
+				if a, ok := g.(*dns.A); ok && strings.EqualFold(a.Hdr.Name, "ns2.v.test.") {
+					a.A = srv2.IP
+				}
+			}
+			vz.Remove("ns2.v.test.", dns.TypeA)
+			vz.Add(fmt.Sprintf("ns2.v.test. 300 IN A %s", srv2.IP))
+		}
+		t.QName = "first.v.test."
+		t.Answerable = true
 	case "refresh":
 		// A delegation that goes bad and is repaired: ref.test. is served by n glueless out-of-zone
 		// nameserver names (ns<i>.far.test.) whose addresses are all dead, so every lookup at the cached
